@@ -13,6 +13,7 @@ package scen
 import (
 	"encoding/json"
 	"fmt"
+	"github.com/mimiro-io/datahub/internal/jobs"
 	"github.com/mimiro-io/datahub/internal/service/entity"
 	"math/rand"
 	"os"
@@ -125,10 +126,87 @@ func c13NS(ctx *Ctx) error {
 		return nil
 	}
 	c13RoundTrip(ctx, r, 400)
+	c13ContextRounds(ctx, r, 600)
 	for i := 0; i < ctx.Cases; i++ {
 		runC13Case(ctx, genC13Case(r, writers, readers, opsPer))
 	}
 	return nil
+}
+
+// c13ContextRounds: readers poll the complete context while one writer introduces small bursts of new namespaces (a
+// batch with a few unseen namespaces); after every burst, with the writer idle, the context that is served contains
+// every prefix handed out so far with its expansion. Decided on the answers alone, no clock.
+func c13ContextRounds(ctx *Ctx, r *rand.Rand, rounds int) {
+	dir := ctx.NewDir("c13cr")
+	defer os.RemoveAll(dir)
+	core := hub.OpenCore(dir)
+	defer core.Close()
+	c := map[string]any{"kind": "context-rounds", "rounds": rounds, "salt": r.Int63()}
+	id := outHash(c)
+	var stop int32
+	var reads int64
+	var rw sync.WaitGroup
+	for k := 0; k < 6; k++ {
+		rw.Add(1)
+		go func(k int) {
+			defer rw.Done()
+			for atomic.LoadInt32(&stop) == 0 {
+				if k%2 == 0 {
+					_ = core.Store.GetGlobalContext(false)
+				} else {
+					_ = core.Store.NamespaceManager.GetContext(nil)
+				}
+				atomic.AddInt64(&reads, 1)
+			}
+		}(k)
+	}
+	defer func() { atomic.StoreInt32(&stop, 1); rw.Wait() }()
+	handed := map[string]string{}
+	checked := 0
+	for round := 0; round < rounds; round++ {
+		burst := map[string]string{}
+		for b := 0; b < 1+round%3; b++ {
+			exp := fmt.Sprintf("http://rounds.example.org/%s/%d/%d/", id, round, b)
+			var prefix string
+			var err error
+			if b%2 == 0 {
+				var curie string
+				curie, err = core.Store.GetNamespacedIdentifierFromURI(exp + "thing")
+				if i := strings.Index(curie, ":"); err == nil && i > 0 {
+					prefix = curie[:i]
+				}
+			} else {
+				prefix, err = core.Store.NamespaceManager.AssertPrefixMappingForExpansion(exp)
+			}
+			if err != nil || prefix == "" {
+				ctx.Out.Case(id, ctx.Seed, c, false, []string{"context-rounds"})
+				ctx.Out.Inconclusive(id, "C13", fmt.Sprintf("context rounds: expansion %q was refused: %v", exp, err))
+				return
+			}
+			burst[prefix] = exp
+		}
+		for p, e := range burst {
+			if old, ok := handed[p]; ok && old != e {
+				ctx.Out.Case(id, ctx.Seed, c, true, []string{"context-rounds"})
+				ctx.Out.Viol(id, "C13", "prefix-two-expansions", fmt.Sprintf("prefix %s was handed out for %q and for %q", p, old, e), nil, nil, nil)
+				return
+			}
+			handed[p] = e
+		}
+		for _, served := range []map[string]string{core.Store.GetGlobalContext(false).Namespaces, core.Store.NamespaceManager.GetContext(nil).Namespaces} {
+			for p, e := range burst {
+				if got, ok := served[p]; !ok || got != e {
+					ctx.Out.Case(id, ctx.Seed, c, true, []string{"context-rounds"})
+					ctx.Out.Viol(id, "C13", "context-misses-handed-out-prefix", fmt.Sprintf("round %d: prefix %s was handed out for %q, the writer is idle, and the complete context served afterwards has %q for it (present=%v; %d of %d prefixes in it)", round, p, e, got, ok, len(served), len(handed)), e, got, nil)
+					return
+				}
+			}
+			checked++
+		}
+	}
+	ctx.Out.Case(id, ctx.Seed, c, atomic.LoadInt64(&reads) > int64(rounds), []string{"context-rounds"})
+	ctx.Out.Stat("c13_context_rounds_complete", int64(checked))
+	ctx.Out.Stat("c13_context_reads_during_rounds", atomic.LoadInt64(&reads))
 }
 
 // c13RoundTrip: compacting an http(s) URI to a CURIE and expanding it again returns the URI.
@@ -184,6 +262,30 @@ func c13RoundTrip(ctx *Ctx, r *rand.Rand, n int) {
 			}
 			ctx.Out.Stat("c13_roundtrips_ok", 1)
 		}
+	}
+	// one URI, one CURIE: the compaction applied to what a remote transform service hands back (HTTP transform with
+	// SupportContext) agrees with the store's own
+	for _, u := range append(uris, "http://a.b/doc/page#section/part", "http://a.b/doc#x/y/z", "https://a.b/c#d#e/f") {
+		var viaShim, viaStore string
+		var e1, e2 error
+		func() {
+			defer func() {
+				if p := recover(); p != nil {
+					e1 = fmt.Errorf("panic: %v", p)
+				}
+			}()
+			viaShim, e1 = jobs.VerifShimIdentifier(core.Store.NamespaceManager, u)
+			viaStore, e2 = core.Store.GetNamespacedIdentifierFromURI(u)
+		}()
+		if e1 != nil || e2 != nil {
+			ctx.Out.Stat("c13_shim_compactions_refused", 1)
+			continue
+		}
+		if viaShim != viaStore {
+			ctx.Out.Viol(id, "C13", "uri-two-curies", fmt.Sprintf("URI %q is compacted to %q by the store and to %q by the HTTP transform's response path: one identifier, two CURIEs (and two internal ids)", u, viaStore, viaShim), viaStore, viaShim, nil)
+			return
+		}
+		ctx.Out.Stat("c13_shim_compactions_agree", 1)
 	}
 	// the same through the prefixed form a client may post (local context prefix -> expansion), with local parts
 	// that contain colons, slashes and hashes, and through the default prefix "_"
@@ -433,8 +535,28 @@ func runC13Case(ctx *Ctx, c c13Case) {
 				mu.Unlock()
 			}(g)
 		}
+		// ... while readers keep asking for the complete context (whatever they cache must not outlive the burst)
+		stopReaders := make(chan struct{})
+		var rw sync.WaitGroup
+		for k := 0; k < 4; k++ {
+			rw.Add(1)
+			go func() {
+				defer rw.Done()
+				for {
+					select {
+					case <-stopReaders:
+						return
+					default:
+					}
+					_ = core.Store.GetGlobalContext(true)
+					_ = core.Store.NamespaceManager.GetContext(nil)
+				}
+			}()
+		}
 		close(go2)
 		bw.Wait()
+		close(stopReaders)
+		rw.Wait()
 	}
 
 	// non-triviality: several goroutines asserted the same new expansion concurrently
